@@ -183,13 +183,20 @@ theorem specLoop_fired (rc : RunCfg) (entries : List RuleEntry) :
 def pollsCancelled (rc : RunCfg) (ss : SState) : Bool := (specPoll rc ss).1
 
 theorem pollsCancelled_mono (rc : RunCfg) {ss ss' : SState} (hv : ss'.vis = ss.vis) (hp : ss.polls ≤ ss'.polls)
+    (ht : ss.trace.length ≤ ss'.trace.length)
     (h : pollsCancelled rc ss = true) : pollsCancelled rc ss' = true := by
   unfold pollsCancelled specPoll at h ⊢
   simp only [hv, Bool.or_eq_true] at h ⊢
-  rcases h with h | h
-  · exact Or.inl h
-  · right
+  rcases h with (h | h) | h
+  · exact Or.inl (Or.inl h)
+  · left; right
     cases hk : rc.cancelAt with
+    | none => simp [hk] at h
+    | some k =>
+      simp only [hk, decide_eq_true_eq] at h ⊢
+      omega
+  · right
+    cases hk : rc.cancelAtEvent with
     | none => simp [hk] at h
     | some k =>
       simp only [hk, decide_eq_true_eq] at h ⊢
@@ -198,31 +205,41 @@ theorem pollsCancelled_mono (rc : RunCfg) {ss ss' : SState} (hv : ss'.vis = ss.v
 theorem specPoll_polls_le (rc : RunCfg) (ss : SState) : ss.polls ≤ (specPoll rc ss).2.polls := by
   unfold specPoll; simp only; split <;> omega
 
+/-- polls and trace only grow during a pass -/
 theorem specPass_polls (rc : RunCfg) (cyc : Nat) :
     ∀ (es : List RuleEntry) (ss : SState) (acc : List RuleEntry),
-      ss.polls ≤ (specPass rc c cyc es ss acc).2.1.polls
-  | [], ss, acc => by simp only [specPass]; exact Nat.le_refl _
+      ss.polls ≤ (specPass rc c cyc es ss acc).2.1.polls ∧
+      ss.trace.length ≤ (specPass rc c cyc es ss acc).2.1.trace.length
+  | [], ss, acc => by simp only [specPass]; exact ⟨Nat.le_refl _, Nat.le_refl _⟩
   | e :: rest, ss, acc => by
     simp only [specPass]
     have p1 := specPoll_polls_le rc ss
     have p2 := specPoll_polls_le rc (specPoll rc ss).2
-    have lift : ∀ (ss' : SState) (acc' : List RuleEntry), ss.polls ≤ ss'.polls →
-        ss.polls ≤ (specPass rc c cyc rest ss' acc').2.1.polls :=
-      fun ss' acc' h => Nat.le_trans h (specPass_polls rc cyc rest ss' acc')
+    have lift : ∀ (ss' : SState) (acc' : List RuleEntry), ss.polls ≤ ss'.polls → ss.trace.length ≤ ss'.trace.length →
+        ss.polls ≤ (specPass rc c cyc rest ss' acc').2.1.polls ∧
+        ss.trace.length ≤ (specPass rc c cyc rest ss' acc').2.1.trace.length :=
+      fun ss' acc' h h' => ⟨Nat.le_trans h (specPass_polls rc cyc rest ss' acc').1,
+        Nat.le_trans h' (specPass_polls rc cyc rest ss' acc').2⟩
+    have hem : ∀ (ss' : SState) (ev : TEv), ss.trace.length ≤ ss'.trace.length →
+        ss.trace.length ≤ (ss'.emit ev).trace.length := by
+      intro ss' ev h
+      simp only [SState.emit, List.length_cons]; omega
+    have t0 : ss.trace.length ≤ (specPoll rc ss).2.trace.length := Nat.le_refl _
+    have t1 : ss.trace.length ≤ (specPoll rc (specPoll rc ss).2).2.trace.length := Nat.le_refl _
     split
-    · exact p1
+    · exact ⟨p1, t0⟩
     · split
-      · exact lift _ _ p1
+      · exact lift _ _ p1 t0
       · split
         · split
-          · exact Nat.le_trans p1 p2
-          · exact lift _ _ (Nat.le_trans p1 p2)
+          · exact ⟨Nat.le_trans p1 p2, t1⟩
+          · exact lift _ _ (Nat.le_trans p1 p2) (hem _ _ t1)
         · split
-          · exact Nat.le_trans p1 p2
+          · exact ⟨Nat.le_trans p1 p2, t1⟩
           · split
-            · exact Nat.le_trans p1 p2
-            · exact lift _ _ (Nat.le_trans p1 p2)
-          · exact lift _ _ (Nat.le_trans p1 p2)
+            · exact ⟨Nat.le_trans p1 p2, t1⟩
+            · exact lift _ _ (Nat.le_trans p1 p2) (hem _ _ t1)
+          · exact lift _ _ (Nat.le_trans p1 p2) (hem _ _ t1)
 
 /-- a pass that runs to its end (`none`: no returned error) and after which the context still is not
     cancelled overlooks nothing: every entry that is a candidate on the facts of the pass is in the
@@ -276,7 +293,8 @@ theorem specPass_complete (rc : RunCfg) (cyc : Nat) :
             have hmono := pollsCancelled_mono rc (ss := (specPoll rc ss).2)
               (ss' := (specPass rc c cyc rest ((specPoll rc (specPoll rc ss).2).2.emit (TEv.eval cyc e.rule.name false)) acc).2.1)
               (by rw [hvis]; rfl)
-              (Nat.le_trans (specPoll_polls_le rc (specPoll rc ss).2) hpol) h3
+              (Nat.le_trans (specPoll_polls_le rc (specPoll rc ss).2) hpol.1)
+              (Nat.le_trans (by simp only [SState.emit, List.length_cons]; exact Nat.le_succ _) hpol.2) h3
             rw [hfin] at hmono
             cases hmono
         · simp only [h3, Bool.false_eq_true, if_false] at hnone hfin ⊢
